@@ -128,6 +128,20 @@ Theorem C03_linspace_axis_refuted :
 Proof. exact linspace_axis_differs. Qed.
 Print Assumptions C03_linspace_axis_refuted.
 
+(* -------- the rounding used for steps, store_steps, store_step and the number of time points -------- *)
+Theorem C03_round_nearest : forall q,
+  (ZtoQc (round_half_even q) - half <= q /\ q <= ZtoQc (round_half_even q) + half)%Qc.
+Proof. exact round_half_even_close. Qed.
+Print Assumptions C03_round_nearest.
+
+Theorem C03_round_unique : forall q z, (ZtoQc z - half < q)%Qc -> (q < ZtoQc z + half)%Qc -> round_half_even q = z.
+Proof. exact round_half_even_nearest. Qed.
+Print Assumptions C03_round_unique.
+
+Theorem C03_round_tie_even : forall z, round_half_even (ZtoQc z + half)%Qc = if Z.even z then z else (z + 1)%Z.
+Proof. exact round_half_even_tie. Qed.
+Print Assumptions C03_round_tie_even.
+
 (* -------- refutations of the full statement (each replayed on the real code: corpus/C03) -------- *)
 Theorem C03_refuted_index_error :
   run_model (lin_f wit_rhs) Euler (mkq 5 8) (mkq 1 8) (Some (mkq 1 4)) (mkq 0 1) [0] [mkq 1 1] 0 = ErrIndex /\
